@@ -79,7 +79,8 @@ def floors(tier):
     return {'evaluations': 40000, 'distinct_nontrivial': 15000, 'chunk_sequences_compared': 30000,
             'partial_compared': 8000, 'module_level_compared': 2000, 'compositionality_checked': 3000,
             'fail_policy_raised': 300, 'histkeys:rule_kind_fired': 3, 'histkeys:scheme': 6, 'histkeys:policy': 6,
-            'per_rule_protection_fired': 1000, 'multichar_consumption': 1000}
+            'per_rule_protection_fired': 1000, 'multichar_consumption': 1000,
+            'partial_with_explicit_rules': 2000, 'partial_with_empty_rules': 500}
 
 
 def setup(rec):
@@ -311,6 +312,13 @@ def check_partial(case, rec):
     scheme, policy, nao = case['scheme'], case['policy'], case['nao']
     keep = case.get('keep', '\\${}^_')
     model_rules = [('dict', builtin('defaults')[0].rule, None)]
+    real_rules = None
+    if case.get('rules') is not None:
+        # explicit conversion_rules (possibly empty: then no character has a rule at all)
+        real_rules, model_rules = build({'rules': case['rules']})
+        rec.monitor('partial_with_explicit_rules')
+        if not case['rules']:
+            rec.monitor('partial_with_empty_rules')
     try:
         want = ''.join(x if isinstance(x, str) else '\0' for x in partial_model(s, keep, model_rules, scheme, policy, nao))
     except M.Fail:
@@ -319,6 +327,8 @@ def check_partial(case, rec):
               unknown_char_warning=False)
     if 'keep' in case:
         kw['keep_latex_chars'] = keep
+    if real_rules is not None:
+        kw['conversion_rules'] = real_rules
     try:
         got = PartialLatexToLatexEncoder(**kw).unicode_to_latex(s)
     except ValueError as e:
@@ -441,6 +451,11 @@ def run_shard(desc, rec):
                     'nao': rng.random() < 0.25}
             if rng.random() < 0.2:
                 case['keep'] = rng.choice(['\\', '\\$', '{}', '^_'])
+            r = rng.random()
+            if r < 0.12:
+                case['rules'] = []
+            elif r < 0.4:
+                case['rules'] = gen_config(rng)['rules']
             rec.case()
             if '\\' in s or '$' in s:
                 rec.nontrivial(('partial', s, case['scheme'], case['policy'], case['nao'], case.get('keep')))
